@@ -1,7 +1,7 @@
 #!/bin/bash
 # usage: try_patch.sh <patch.diff> <prop> [<prop>...]  -- applies the patch to a scratch copy of /repo and runs the static checks on it
 set -u
-P="$1"; shift
+P="$(realpath "$1")"; shift
 T=$(mktemp -d /tmp/avfs-variant-XXXX)
 rsync -a --exclude .git /repo/ "$T/"
 ( cd "$T" && git apply --whitespace=nowarn "$P" ) || { echo "PATCH DOES NOT APPLY"; rm -rf "$T"; exit 3; }
